@@ -1,6 +1,7 @@
 import Texel.Proofs.Chain
 import Texel.Properties.C17
 import Texel.Proofs.NoTwice
+import Texel.Proofs.Total
 /-! # C06 — snapping is total: no panic, no hang for any in-grid polygon
 
 Every Go panic site is an `Except.error` of the model and every Go loop a structural recursion or a recursion on explicit
@@ -11,8 +12,10 @@ fuel (`fuel(...)` errors would be hangs). Proved here (for all polygons, valid o
 * `splitRing` never reaches one of its panics (index out of range on the stack of partial rings, nil `stack.Newest`, "partial rings
   remaining on stack") and the rest of the ring clean-up raises nothing: for every ring of a polygon inside the grid, on every level, an
   error of `processRing` can only come out of `kmpDeduplicate` (`C06_ring_cleanup_total_partial`; under the hypothesis `KmpNoDup`, see C05).
-Not proved (open): that `kmpDeduplicate` never reaches its index/slice panics and that its fuel is never exhausted; that
-`dedupeInnersOuters` raises nothing — these are evaluated on every generated input (correspondence streams `snap`, `kmp`, `split`; watchdog), see DESIGN §6 C06. -/
+* `dedupeInnersOuters` raises nothing (no ring it sees is empty), so for a polygon inside the grid **everything `snapPolygonF` raises
+  is raised by `kmpDeduplicate`** (`C06_total_up_to_kmp_partial`), the outside-grid error apart.
+Not proved (open): that `kmpDeduplicate` never reaches its index/slice panics and that its fuel is never exhausted (and the
+hypothesis `KmpNoDup` about its result) — these are evaluated on every generated input (correspondence streams `snap`, `kmp`, `split`; watchdog), see DESIGN §6 C06. -/
 namespace Texel.C06
 open Texel
 
@@ -45,5 +48,13 @@ theorem C06_ring_cleanup_total_partial (hk : KmpNoDup) (g : Grid) (hres : 0 < g.
     (hins : insertAll g rings = some addrs) (ring : List Pt) (hring : ring ∈ rings) (l : Nat) (hl : l ≤ g.depth) (isOuter : Bool) (e : String)
     (herr : processRing g (hotOf g addrs) l isOuter ring = .error e) : ∃ r, kmpDeduplicateF r = .error e :=
   (processRing_nodup hk g hres rings addrs hins ring (fun v hv => List.mem_flatten.2 ⟨ring, hring, hv⟩) l hl isOuter).2 e herr
+
+/-- **snapping is total up to spike removal** (partial: under `KmpNoDup`): for every polygon, every set of levels `≤ depth` and every
+combination of flags, an error of `snapPolygonF` is either the outside-grid error (some vertex is outside the extent) or an error raised
+inside `kmpDeduplicate` -/
+theorem C06_total_up_to_kmp_partial (hk : KmpNoDup) (g : Grid) (hres : 0 < g.res) (rings : List (List Pt)) (levels : List Nat) (cfg : Config)
+    (hlev : ∀ l ∈ levels, l ≤ g.depth) (e : String) (h : snapPolygonF g rings levels cfg = .error e) :
+    (e = "outside-grid" ∧ insertAll g rings = none) ∨ ∃ r, kmpDeduplicateF r = .error e :=
+  snapPolygonF_error hk g hres rings levels cfg hlev e h
 
 end Texel.C06
